@@ -4,6 +4,7 @@ import random
 from common import (F, cnat, copt, cq, cql, cqll, cres, clist, ctuple, cz, fsl, fs, distinct, npts_of, pts_json,
                     rand_points, rand_weights, rand_q, random_vector, shape_vectors)
 
+PREWARM = False      # see impl_runner: no float pre-run for this stream
 COQ_MODULE = "NurbsV.Check.C15"
 CHECK_FN = "check_case"
 CASE_TYPE = "case"
